@@ -468,7 +468,10 @@ static int32_t wr_data_inner(struct jls_core_fsr_s * self, const void * data, ui
             uint8_t mask = (1 << self->shift_amount) - 1;
             uint32_t bits = length * sample_size_bits + self->shift_amount;
             while (bits) {
-                uint16_t v = (self->shift_buffer & mask) | (((uint16_t) (*src_u8++)) << self->shift_amount);
+                uint16_t v = (self->shift_buffer & mask);
+                if (bits > self->shift_amount) {  // source bits remain (else only the carried bits are left)
+                    v |= ((uint16_t) (*src_u8++)) << self->shift_amount;
+                }
                 if (bits >= 8) {
                     *dst_u8++ = (uint8_t) v;
                     bits -= 8;
